@@ -1331,7 +1331,7 @@ impl Sim {
                 let mut d = Durable::default();
                 d.snap = rec.clone();
                 d.applied = rec.clone();
-                d.hs.term = rec.term;
+                d.hs.term = self.nodes[k].durable.hs.term;
                 d.hs.commit = rec.index;
                 let (tid, did) = (self.nodes[t].id, self.nodes[k].id);
                 self.nodes[t].durable = d;
